@@ -318,28 +318,32 @@ def _matched_only(ck, P, cfg):
     ck.expect("C02.8", len(frees), 1, "releases of the anti-message in handle_remote_anti_msg")
     for c in frees:
         inst = "release-after-match@handle_remote_anti_msg"
-        paths, complete = Q.path_conditions(h, c)
-        if not complete or not paths:
-            ck.inconclusive("C02.8", inst, c.where, "paths to the release could not be enumerated", cfg)
-            continue
-        bad = None
-        for conds in paths:
-            got = set()
-            for core, t in conds:
+        # the tests that decide whether the release executes (found-flags followed to what decides their assignments)
+        got = set()
+        work, done, n_dec = [c], set(), 0
+        while work:
+            tgt = work.pop()
+            if tgt.id in done:
+                continue
+            done.add(tgt.id)
+            for core, B in Q.deciding_branches(h, tgt):
+                n_dec += 1
                 core = X.strip(core)
-                if core.k == "BinaryOperator" and core.op in ("!=", "=="):
-                    equal = (core.op == "!=" and t is False) or (core.op == "==" and t is True)
-                    if equal:
-                        for x in core.walk():
+                for cmp in core.walk():
+                    if cmp.k == "BinaryOperator" and cmp.op in ("!=", "=="):
+                        for x in cmp.walk():
                             if x.k == "MemberExpr" and x.name in ("raw_flags", "m_seq", "flags"):
                                 got.add("raw_flags" if x.name == "flags" else x.name)
-            if not {"raw_flags", "m_seq"} <= got:
-                bad = conds
-        if bad is not None:
-            ck.violated("C02.8", inst, c.where, "the anti-message is released on a path where no event was matched (conditions on it: %s): the event it cancels may still be queued or in flight, "
-                        "and will be processed as if it had never been cancelled" % ", ".join("%s=%s" % (X.show(core)[:30], t) for core, t in bad[:4]), cfg)
+                fields, locs, calls = _cond_names(h, core)
+                for x in locs:
+                    sets = _flag_sets(h, x)
+                    if sets:
+                        work.extend(sets)
+        if {"raw_flags", "m_seq"} <= got:
+            ck.holds("C02.8", inst, c.where, "whether the anti-message is released is decided by the comparison of both identity fields; otherwise it is parked on the early list", cfg)
         else:
-            ck.holds("C02.8", inst, c.where, "released only after both identity fields compared equal (%d path(s)); otherwise it is parked on the early list" % len(paths), cfg)
+            ck.violated("C02.8", inst, c.where, "the anti-message is released on a path that no identity comparison decides (%d deciding test(s), identity fields among them: %s): the event it "
+                        "cancels may still be queued or in flight, and will be processed as if it had never been cancelled" % (n_dec, sorted(got) or "none"), cfg)
 
 
 def _flag_sets(f, name):
